@@ -172,7 +172,7 @@ PROPS["C12"] = dict(
                "Tie: S-ctl 'urr' in lock-step, with two external predicates on the implementation's own output: (a) a URR that loses its last referring PDR in a request (as the accepted requests say) "
                "is queried exactly once and its reports come back flagged TERMR; (b) in every table dump the recorded count of each URR equals the number of PDRs whose recorded list names it.",
     level_note="PARTIAL in one respect: the history theorem needs 'no Create PDR for a live PDR id' — without it the property is false of the code (known finding recreatePdrLive, witnessed on every run "
-               "by the corpus). Session deletion is covered by the lock-step tie and the C11 emission theorems (one report per URR, bookkeeping dropped after it), not by a separate C12 theorem.",
+               "by the corpus). Remove URR / session deletion: removed_reported_once — in a response carrier a URR marked removed gets exactly one usage-report IE if the session knew it and the data plane returned anything for it, however many reports there are (removal answer, dissociation query of a PDR removed in the same request), none otherwise; that the handlers mark the URR and collect the answers is the lock-step tie.",
 )
 PROPS["C07"] = dict(
     module="UpfVerif.Props.C07",
